@@ -7,39 +7,58 @@ package main
 // `Gostatix.Murmur.sum128` for ALL byte strings; both are re-checked by `lake build` against whatever
 // this file emits.
 //
-// Like arith.go the translator is purely syntactic (no go/types).  Every piece is recognised by an
-// exact statement shape; a piece that leaves the subset gets NO definition (a comment and an entry in
+// Like arith.go the translator is purely syntactic (no go/types).  Every piece is recognised by a
+// statement shape; a piece that leaves the subset gets NO definition (a comment and an entry in
 // `Murmur.unsupported`), so the assembly and the tie theorems no longer type-check.
 //
+// The NAMES of the generated definitions are roles chosen here (`blockLoad`, `bmixBlock`, `tailMix`,
+// `finalize`, ...), never Go identifiers: the hand-written Lean files do not depend on how the Go
+// source calls its constants, locals or helper functions.  The Go names that ARE used, to locate the
+// pieces: the functions `(*digest128).bmix`, `(*digest128).Sum128`, `(*digest128).Size`, `sum128` of
+// murmur.go and `getHash` of base_cuckoo_filter.go, and the struct `digest128`.
+//
+// Constants   every identifier that refers to a package-level integer constant of murmur.go is replaced
+//             by its VALUE (constant expressions `+ - * / <<` of such constants are folded); the generated
+//             file contains no named constants, only a comment table of the `const` declarations.
+// Helpers     a call `f(a, ..)` of a package-level function of murmur.go whose parameters are uint64/uint,
+//             whose single unnamed result is uint64/uint and whose body is straight-line code followed by
+//             one `return <expr>` is INLINED (`(let p := a; ...; <expr>)`, locals renamed apart), also
+//             inside such helpers, to depth 4; fmix64 is such a helper.  Anything else is refused.
+//
 // Pieces
-//   constants   every name of the `const (...)` blocks of murmur.go with an integer literal value
-//               (`c1_128`, `c2_128` : UInt64; `block_size`)
 //   blockLoad   `t := (*[2]uint64)(unsafe.Pointer(&p[i*S]))` followed by `k1, k2 := t[a], t[b]` - exactly this
-//               shape - becomes two little-endian 8-byte loads at byte offsets i*S+8a, i*S+8b
+//               shape (S, a, b constants) - becomes two little-endian 8-byte loads at byte offsets i*S+8a, i*S+8b
 //               (ASSUMPTION: little-endian target, recorded in the generated header)
 //   bmixBlock   the rest of the loop body of `(*digest128).bmix`, straight-line
 //   bmixLoop*   the loop header `for i := 0; i < nblocks; i++` (start, step) as data; `h1, h2 := d.h1, d.h2` before and
 //               `d.h1, d.h2 = h1, h2` after the loop are checked
-//   fmix64      straight-line, `return <expr>`
-//   tailMix     `var k1, k2 uint64` and `switch len(tail) & M { case M: ...; fallthrough; case M-1: ... }` of
-//               `(*digest128).Sum128`: the case values must be the literals M, M-1, M-2, ... in this order,
-//               one value per case, no default, every case but the last ends in `fallthrough` and the
-//               last does not; then the statements of `case c` run iff `len(tail) & M >= c`, and every
-//               statement `v op= e` of case c becomes `let v := if sel >= c then v op e else v`
+//   tailMix     the statements of `(*digest128).Sum128` between `h1, h2 = d.h1, d.h2` and the end of
+//               `switch len(tail) & M { case M: ...; fallthrough; case M-1: ... }`: a straight-line prefix
+//               (`var k1, k2 uint64`), then the switch; the case values must be the constants M, M-1, M-2, ...
+//               in this order, one value per case, no default, every case but the last ends in
+//               `fallthrough` and the last does not; then the statements of `case c` run iff
+//               `len(tail) & M >= c`, and every statement `v op= e` of case c becomes
+//               `let v := if sel >= c then v op e else v`
 //   finalize    the statements of Sum128 after the switch up to `return h1, h2`
 //   digestSum128  Sum128 = tailMix, then finalize
-//   seeds, nblocksOf, tailStart   from the six statements of `sum128` (exact shapes, see mmSum128)
-//   getHashWord from `getHash` of base_cuckoo_filter.go (`hash1, _ := sum128(data); return hash1`): which word is used
+//   seedH1/seedH2, nblocksOf, tailStart, lengthArg   from `sum128`, whose statements may come in any order that
+//               compiles: creation of the digest (`d := digest128{..}`, `var d digest128`), int locals
+//               (`dlen := len(data)`, `nblocks := dlen / C`), `tail := data[<nblocks>*C':]` (C' a constant or
+//               `d.Size()`, C' <= C), one call `d.bmix(data, <nblocks>)`, `return d.Sum128(<tail>, uint(<len>))`
+//   getHashWord from `getHash` of base_cuckoo_filter.go (`a, b := sum128(data); return a`): which word is used
 //
 // Straight-line subset
-//   statements  `v = e`, `v op= e` with op in * + - ^ | &, v a uint64/uint local, parameter or named result
-//   expressions locals, the constants above, integer literals (typed by the other operand), parentheses,
+//   statements  `v = e`, `v op= e` with op in * + - ^ | &, v a uint64/uint local, parameter or named result;
+//               tuple assignments `a, b = e1, e2` with Go's SIMULTANEOUS semantics (all right-hand sides are
+//               bound to temporaries first); `x := e`, `x, y := e1, e2` and `var x, y uint64` introducing NEW
+//               names (no shadowing), outside the switch only
+//   expressions locals, integer constants (by value), integer literals (typed by the other operand), parentheses,
 //               `x op y` with op in * + - ^ | & (operands of identical type: checked here),
-//               `x << n`, `x >> n` with a literal 0 <= n < 64 (unsigned x),
-//               `bits.RotateLeft64(x, n)` with a literal 0 <= n < 64,
-//               `uint64(x)` for x of type uint64 / uint (identity on a 64-bit target),
-//               `uint64(s[n])` for the []byte parameter s and a literal n (inside `case c` only, and n < c),
-//               calls of functions of murmur.go translated before (fmix64)
+//               `x << n`, `x >> n` with a constant 0 <= n < 64 (unsigned x),
+//               `bits.RotateLeft64(x, n)` with a constant 0 <= n < 64,
+//               `uint64(x)` / `uint(x)` for x of type uint64 / uint (identity on a 64-bit target),
+//               `uint64(s[n])` for the []byte parameter s and a constant n (inside `case c` only, and n < c),
+//               calls of inlinable helpers (see above)
 
 import (
 	"fmt"
@@ -50,7 +69,6 @@ import (
 	"math/big"
 	"os"
 	"path/filepath"
-	"sort"
 	"strconv"
 	"strings"
 )
@@ -61,6 +79,7 @@ const (
 	mmNone mmTy = iota
 	mmU64
 	mmUint
+	mmInt
 	mmUntyped
 	mmBytes
 )
@@ -71,6 +90,8 @@ func (t mmTy) String() string {
 		return "uint64"
 	case mmUint:
 		return "uint"
+	case mmInt:
+		return "int"
 	case mmUntyped:
 		return "untyped constant"
 	case mmBytes:
@@ -78,6 +99,8 @@ func (t mmTy) String() string {
 	}
 	return "?"
 }
+
+func (t mmTy) word() bool { return t == mmU64 || t == mmUint }
 
 func mmTyOf(e ast.Expr) mmTy {
 	switch t := e.(type) {
@@ -87,6 +110,8 @@ func mmTyOf(e ast.Expr) mmTy {
 			return mmU64
 		case "uint":
 			return mmUint
+		case "int":
+			return mmInt
 		}
 	case *ast.ArrayType:
 		if t.Len == nil {
@@ -100,7 +125,23 @@ func mmTyOf(e ast.Expr) mmTy {
 
 type mmEnv struct {
 	vars      map[string]mmTy
-	caseBound int // > 0 inside `case c` of the tail switch: byte indices must be < c
+	rename    map[string]string // Go name -> Lean name (inlined helpers)
+	caseBound int               // > 0 inside `case c` of the tail switch: byte indices must be < c
+	depth     int               // inlining depth
+}
+
+func (env *mmEnv) lean(name string) string {
+	if r, ok := env.rename[name]; ok {
+		return leanIdent(r)
+	}
+	return leanIdent(name)
+}
+
+type mmConstDecl struct {
+	name string
+	expr ast.Expr
+	ty   mmTy // mmUntyped, or the declared type
+	line int
 }
 
 type mmGen struct {
@@ -108,14 +149,16 @@ type mmGen struct {
 	file       *ast.File
 	base       string
 	lines      []string
-	consts     map[string]*big.Int
+	consts     map[string]*mmConstDecl
 	constOrder []string
-	constLine  map[string]int
 	funcs      map[string]*ast.FuncDecl // "name" or "Recv.name"
 	fields     map[string][]string      // struct -> field names of type uint64, in order (nil if another type occurs)
 	bitsName   string
 	unsafeName string
-	translated map[string]bool // helper functions that have a definition
+	idents     map[string]bool // every identifier of murmur.go (fresh names avoid them)
+	shadow     map[string]bool // names declared inside the function being translated
+	fresh      int
+	inlined    []string // notes about the helpers inlined into the piece being translated
 }
 
 func (g *mmGen) line(n ast.Node) int { return g.fset.Position(n.Pos()).Line }
@@ -135,23 +178,146 @@ func (g *mmGen) cmt(n ast.Node) string {
 	return fmt.Sprintf("-- %s: %s", g.at(n), g.src(n))
 }
 
-func mmLit(e ast.Expr) (*big.Int, bool) {
-	if p, ok := e.(*ast.ParenExpr); ok {
-		return mmLit(p.X)
+// freshName: a Lean name that is no identifier of murmur.go
+func (g *mmGen) freshName(stem string) string {
+	for {
+		g.fresh++
+		n := fmt.Sprintf("%s_%d", stem, g.fresh)
+		if !g.idents[n] {
+			return n
+		}
 	}
-	if _, ok := e.(*ast.BasicLit); !ok {
-		return nil, false
-	}
-	v := constValue(e)
-	return v, v != nil
 }
 
-func mmSmallLit(e ast.Expr, limit int64) (int, bool) {
-	v, ok := mmLit(e)
+// declaredIn: every name declared inside a function (receiver, parameters, results, :=, var, const, range keys)
+func declaredIn(fd *ast.FuncDecl) map[string]bool {
+	out := map[string]bool{}
+	add := func(fl *ast.FieldList) {
+		if fl == nil {
+			return
+		}
+		for _, f := range fl.List {
+			for _, n := range f.Names {
+				out[n.Name] = true
+			}
+		}
+	}
+	add(fd.Recv)
+	add(fd.Type.Params)
+	add(fd.Type.Results)
+	if fd.Body == nil {
+		return out
+	}
+	ast.Inspect(fd.Body, func(n ast.Node) bool {
+		switch v := n.(type) {
+		case *ast.AssignStmt:
+			if v.Tok == token.DEFINE {
+				for _, l := range v.Lhs {
+					if id, ok := l.(*ast.Ident); ok {
+						out[id.Name] = true
+					}
+				}
+			}
+		case *ast.ValueSpec:
+			for _, id := range v.Names {
+				out[id.Name] = true
+			}
+		case *ast.TypeSpec:
+			out[v.Name.Name] = true
+		case *ast.RangeStmt:
+			if v.Tok == token.DEFINE {
+				if id, ok := v.Key.(*ast.Ident); ok {
+					out[id.Name] = true
+				}
+				if id, ok := v.Value.(*ast.Ident); ok {
+					out[id.Name] = true
+				}
+			}
+		case *ast.FuncLit:
+			add(v.Type.Params)
+			add(v.Type.Results)
+		case *ast.LabeledStmt:
+			out[v.Label.Name] = true
+		}
+		return true
+	})
+	return out
+}
+
+// enter: start translating (a piece of) fd
+func (g *mmGen) enter(fd *ast.FuncDecl) {
+	g.shadow = declaredIn(fd)
+	g.fresh = 0
+	g.inlined = nil
+}
+
+// constEval: the value of a constant expression built from integer literals, package-level integer
+// constants of murmur.go (not shadowed in the current function) and + - * / <<
+func (g *mmGen) constEval(e ast.Expr, depth int) (*big.Int, bool) {
+	if depth > 16 {
+		return nil, false
+	}
+	switch x := e.(type) {
+	case *ast.ParenExpr:
+		return g.constEval(x.X, depth+1)
+	case *ast.BasicLit:
+		v := constValue(x)
+		return v, v != nil
+	case *ast.Ident:
+		c := g.consts[x.Name]
+		if c == nil || g.shadow[x.Name] {
+			return nil, false
+		}
+		saved := g.shadow
+		g.shadow = nil // the defining expression lives at package level
+		v, ok := g.constEval(c.expr, depth+1)
+		g.shadow = saved
+		return v, ok
+	case *ast.BinaryExpr:
+		a, ok := g.constEval(x.X, depth+1)
+		if !ok {
+			return nil, false
+		}
+		b, ok := g.constEval(x.Y, depth+1)
+		if !ok {
+			return nil, false
+		}
+		switch x.Op {
+		case token.ADD:
+			return new(big.Int).Add(a, b), true
+		case token.SUB:
+			return new(big.Int).Sub(a, b), true
+		case token.MUL:
+			return new(big.Int).Mul(a, b), true
+		case token.QUO:
+			if b.Sign() <= 0 || a.Sign() < 0 {
+				return nil, false
+			}
+			return new(big.Int).Quo(a, b), true
+		case token.SHL:
+			if b.Sign() < 0 || !b.IsInt64() || b.Int64() > 200 {
+				return nil, false
+			}
+			return new(big.Int).Lsh(a, uint(b.Int64())), true
+		}
+	}
+	return nil, false
+}
+
+// smallConst: a constant expression with value in [0, limit)
+func (g *mmGen) smallConst(e ast.Expr, limit int64) (int, bool) {
+	v, ok := g.constEval(e, 0)
 	if !ok || v.Sign() < 0 || !v.IsInt64() || v.Int64() >= limit {
 		return 0, false
 	}
 	return int(v.Int64()), true
+}
+
+func leanNumeral(v *big.Int) string {
+	if v.IsInt64() && v.Int64() < 1024 {
+		return v.String()
+	}
+	return fmt.Sprintf("0x%x", v)
 }
 
 func isIdent(e ast.Expr, name string) bool {
@@ -171,13 +337,19 @@ func loadMurmur(repo string) (*mmGen, error) {
 	if err != nil {
 		return nil, err
 	}
-	g := &mmGen{fset: token.NewFileSet(), base: "murmur.go", consts: map[string]*big.Int{}, constLine: map[string]int{},
-		funcs: map[string]*ast.FuncDecl{}, fields: map[string][]string{}, translated: map[string]bool{}}
+	g := &mmGen{fset: token.NewFileSet(), base: "murmur.go", consts: map[string]*mmConstDecl{},
+		funcs: map[string]*ast.FuncDecl{}, fields: map[string][]string{}, idents: map[string]bool{}}
 	g.file, err = parser.ParseFile(g.fset, path, data, parser.SkipObjectResolution)
 	if err != nil {
 		return nil, err
 	}
 	g.lines = strings.Split(string(data), "\n")
+	ast.Inspect(g.file, func(n ast.Node) bool {
+		if id, ok := n.(*ast.Ident); ok {
+			g.idents[id.Name] = true
+		}
+		return true
+	})
 	for _, im := range g.file.Imports {
 		p, _ := strconv.Unquote(im.Path.Value)
 		name := filepath.Base(p)
@@ -203,15 +375,19 @@ func loadMurmur(repo string) (*mmGen, error) {
 			for _, s := range d.Specs {
 				switch s := s.(type) {
 				case *ast.ValueSpec:
-					if d.Tok != token.CONST || s.Type != nil || len(s.Names) != len(s.Values) {
-						continue
+					if d.Tok != token.CONST || len(s.Names) != len(s.Values) {
+						continue // iota-style continuation lines are not integer constants we resolve
+					}
+					ty := mmUntyped
+					if s.Type != nil {
+						ty = mmTyOf(s.Type)
+						if ty != mmU64 && ty != mmUint && ty != mmInt {
+							continue
+						}
 					}
 					for i, n := range s.Names {
-						if v, ok := mmLit(s.Values[i]); ok && v.Sign() >= 0 {
-							g.consts[n.Name] = v
-							g.constLine[n.Name] = g.line(n)
-							g.constOrder = append(g.constOrder, n.Name)
-						}
+						g.consts[n.Name] = &mmConstDecl{n.Name, s.Values[i], ty, g.line(n)}
+						g.constOrder = append(g.constOrder, n.Name)
 					}
 				case *ast.TypeSpec:
 					st, ok := s.Type.(*ast.StructType)
@@ -241,27 +417,43 @@ func loadMurmur(repo string) (*mmGen, error) {
 // ---------------------------------------------------------------------------------------------
 // expressions and straight-line statements
 
+func (g *mmGen) numeral(e ast.Expr, v *big.Int) (lexpr, error) {
+	if v.Sign() < 0 || v.BitLen() > 64 {
+		return lexpr{}, unsupportedf("%s: constant %s does not fit 64 unsigned bits", g.at(e), v.String())
+	}
+	return lexpr{leanNumeral(v), true}, nil
+}
+
 func (g *mmGen) expr(e ast.Expr, env *mmEnv) (lexpr, mmTy, error) {
 	switch x := e.(type) {
 	case *ast.ParenExpr:
 		return g.expr(x.X, env)
 	case *ast.Ident:
 		if t, ok := env.vars[x.Name]; ok {
-			if t != mmU64 && t != mmUint {
+			if !t.word() {
 				return lexpr{}, mmNone, unsupportedf("%s: `%s` of type %s used as an integer", g.at(x), x.Name, t)
 			}
-			return lexpr{leanIdent(x.Name), true}, t, nil
+			return lexpr{env.lean(x.Name), true}, t, nil
 		}
-		if _, ok := g.consts[x.Name]; ok {
-			return lexpr{leanIdent(x.Name), true}, mmUntyped, nil
+		if c := g.consts[x.Name]; c != nil {
+			v, ok := g.constEval(x, 0)
+			if !ok {
+				return lexpr{}, mmNone, unsupportedf("%s: constant `%s` (shadowed, or not an integer constant expression)", g.at(x), x.Name)
+			}
+			if c.ty == mmInt {
+				return lexpr{}, mmNone, unsupportedf("%s: constant `%s` of type int in unsigned arithmetic", g.at(x), x.Name)
+			}
+			n, err := g.numeral(x, v)
+			return n, c.ty, err
 		}
 		return lexpr{}, mmNone, unsupportedf("%s: identifier `%s` is neither a uint64/uint variable of the piece nor an integer constant of murmur.go", g.at(x), x.Name)
 	case *ast.BasicLit:
-		v, ok := mmLit(x)
-		if !ok || v.Sign() < 0 || v.BitLen() > 64 {
+		v, ok := g.constEval(x, 0)
+		if !ok {
 			return lexpr{}, mmNone, unsupportedf("%s: literal %s", g.at(x), x.Value)
 		}
-		return lexpr{x.Value, true}, mmUntyped, nil
+		n, err := g.numeral(x, v)
+		return n, mmUntyped, err
 	case *ast.BinaryExpr:
 		switch x.Op {
 		case token.SHL, token.SHR:
@@ -269,12 +461,12 @@ func (g *mmGen) expr(e ast.Expr, env *mmEnv) (lexpr, mmTy, error) {
 			if err != nil {
 				return lexpr{}, mmNone, err
 			}
-			if lt != mmU64 && lt != mmUint {
+			if !lt.word() {
 				return lexpr{}, mmNone, unsupportedf("%s: shift of an operand of type %s", g.at(x), lt)
 			}
-			n, ok := mmSmallLit(x.Y, 64)
+			n, ok := g.smallConst(x.Y, 64)
 			if !ok {
-				return lexpr{}, mmNone, unsupportedf("%s: shift count %s is not a literal in 0..63", g.at(x), types.ExprString(x.Y))
+				return lexpr{}, mmNone, unsupportedf("%s: shift count %s is not a constant in 0..63", g.at(x), types.ExprString(x.Y))
 			}
 			op := "<<<"
 			if x.Op == token.SHR {
@@ -293,7 +485,12 @@ func (g *mmGen) expr(e ast.Expr, env *mmEnv) (lexpr, mmTy, error) {
 			t := lt
 			switch {
 			case lt == mmUntyped && rt == mmUntyped:
-				return lexpr{}, mmNone, unsupportedf("%s: constant expression %s", g.at(x), types.ExprString(x))
+				v, ok := g.constEval(x, 0)
+				if !ok {
+					return lexpr{}, mmNone, unsupportedf("%s: constant expression %s", g.at(x), types.ExprString(x))
+				}
+				n, err := g.numeral(x, v)
+				return n, mmUntyped, err
 			case lt == mmUntyped:
 				t = rt
 			case rt == mmUntyped:
@@ -316,7 +513,7 @@ func (g *mmGen) call(x *ast.CallExpr, env *mmEnv) (lexpr, mmTy, error) {
 	// bits.RotateLeft64(v, n)
 	if sel, ok := x.Fun.(*ast.SelectorExpr); ok {
 		if g.bitsName != "" && isIdent(sel.X, g.bitsName) && sel.Sel.Name == "RotateLeft64" && len(x.Args) == 2 {
-			if _, shadow := env.vars[g.bitsName]; shadow {
+			if _, sh := env.vars[g.bitsName]; sh || g.shadow[g.bitsName] {
 				return lexpr{}, mmNone, unsupportedf("%s: `%s` is shadowed", g.at(x), g.bitsName)
 			}
 			a, at, err := g.expr(x.Args[0], env)
@@ -326,9 +523,9 @@ func (g *mmGen) call(x *ast.CallExpr, env *mmEnv) (lexpr, mmTy, error) {
 			if at != mmU64 {
 				return lexpr{}, mmNone, unsupportedf("%s: bits.RotateLeft64 of an operand of type %s", g.at(x), at)
 			}
-			n, ok := mmSmallLit(x.Args[1], 64)
+			n, ok := g.smallConst(x.Args[1], 64)
 			if !ok {
-				return lexpr{}, mmNone, unsupportedf("%s: rotation count %s is not a literal in 0..63", g.at(x), types.ExprString(x.Args[1]))
+				return lexpr{}, mmNone, unsupportedf("%s: rotation count %s is not a constant in 0..63", g.at(x), types.ExprString(x.Args[1]))
 			}
 			return lexpr{fmt.Sprintf("GoBits.rotl64 %s %d", a.paren(), n), false}, mmU64, nil
 		}
@@ -338,94 +535,292 @@ func (g *mmGen) call(x *ast.CallExpr, env *mmEnv) (lexpr, mmTy, error) {
 	if !ok {
 		return lexpr{}, mmNone, unsupportedf("%s: call of %s", g.at(x), types.ExprString(x.Fun))
 	}
-	if _, shadow := env.vars[id.Name]; shadow {
-		return lexpr{}, mmNone, unsupportedf("%s: call of the variable `%s`", g.at(x), id.Name)
+	if _, sh := env.vars[id.Name]; sh || g.shadow[id.Name] {
+		return lexpr{}, mmNone, unsupportedf("%s: call of `%s`, which is declared inside the function", g.at(x), id.Name)
 	}
-	if id.Name == "uint64" && len(x.Args) == 1 {
+	if (id.Name == "uint64" || id.Name == "uint") && len(x.Args) == 1 {
+		to := mmU64
+		if id.Name == "uint" {
+			to = mmUint
+		}
 		// uint64(s[n]) for a []byte s
 		if ix, ok := x.Args[0].(*ast.IndexExpr); ok {
 			s, ok := ix.X.(*ast.Ident)
 			if !ok || env.vars[s.Name] != mmBytes {
 				return lexpr{}, mmNone, unsupportedf("%s: index expression %s", g.at(x), types.ExprString(ix))
 			}
-			n, ok := mmSmallLit(ix.Index, 1<<31)
+			n, ok := g.smallConst(ix.Index, 1<<31)
 			if !ok {
-				return lexpr{}, mmNone, unsupportedf("%s: index %s is not a literal", g.at(x), types.ExprString(ix.Index))
+				return lexpr{}, mmNone, unsupportedf("%s: index %s is not a constant", g.at(x), types.ExprString(ix.Index))
 			}
 			if env.caseBound <= 0 || n >= env.caseBound {
 				return lexpr{}, mmNone, unsupportedf("%s: %s[%d] is read where only indices < %d are known to be in range", g.at(x), s.Name, n, env.caseBound)
 			}
-			return lexpr{fmt.Sprintf("GoBits.byteAt %s %d", leanIdent(s.Name), n), false}, mmU64, nil
+			return lexpr{fmt.Sprintf("GoBits.byteAt %s %d", env.lean(s.Name), n), false}, to, nil
 		}
 		a, at, err := g.expr(x.Args[0], env)
 		if err != nil {
 			return lexpr{}, mmNone, err
 		}
-		if at != mmU64 && at != mmUint {
-			return lexpr{}, mmNone, unsupportedf("%s: conversion of %s to uint64", g.at(x), at)
+		if !at.word() && at != mmUntyped {
+			return lexpr{}, mmNone, unsupportedf("%s: conversion of %s to %s", g.at(x), at, id.Name)
 		}
-		return a, mmU64, nil // identity: uint is 64 bits wide on the targets considered
+		return a, to, nil // identity: uint is 64 bits wide on the targets considered
 	}
-	if g.translated[id.Name] && len(x.Args) == 1 {
-		a, at, err := g.expr(x.Args[0], env)
-		if err != nil {
-			return lexpr{}, mmNone, err
-		}
-		if at != mmU64 {
-			return lexpr{}, mmNone, unsupportedf("%s: argument of type %s for %s", g.at(x), at, id.Name)
-		}
-		return lexpr{fmt.Sprintf("%s %s", leanIdent(id.Name), a.paren()), false}, mmU64, nil
+	if fd := g.funcs[id.Name]; fd != nil && fd.Recv == nil {
+		return g.inlineCall(x, fd, env)
 	}
 	return lexpr{}, mmNone, unsupportedf("%s: call of %s", g.at(x), id.Name)
+}
+
+// inlineCall: f(a, ..) for a package-level f of murmur.go with uint64/uint parameters, one unnamed uint64/uint
+// result and a body `<straight-line>; return <expr>` becomes `(let p := a; ..; <expr>)`
+func (g *mmGen) inlineCall(x *ast.CallExpr, fd *ast.FuncDecl, env *mmEnv) (lexpr, mmTy, error) {
+	name := fd.Name.Name
+	if env.depth >= 4 {
+		return lexpr{}, mmNone, unsupportedf("%s: call of %s: helper calls nested deeper than 4 (or recursive)", g.at(x), name)
+	}
+	ps, rs := g.fieldList(fd.Type.Params), g.fieldList(fd.Type.Results)
+	if fd.Body == nil || fd.Type.TypeParams != nil || len(rs) != 1 || !rs[0].ty.word() || rs[0].name != "" || len(ps) != len(x.Args) {
+		return lexpr{}, mmNone, unsupportedf("%s: call of %s, which is not a helper `func(uint64, ..) uint64` with an unnamed result", g.at(x), name)
+	}
+	var pn []string
+	for _, p := range ps {
+		if !p.ty.word() || p.name == "" {
+			return lexpr{}, mmNone, unsupportedf("%s: call of %s: parameter of type other than uint64/uint", g.at(x), name)
+		}
+		pn = append(pn, p.name)
+	}
+	if len(pn) > 0 && !distinct(pn...) {
+		return lexpr{}, mmNone, unsupportedf("%s: call of %s: blank or repeated parameter names", g.at(x), name)
+	}
+	body := fd.Body.List
+	if len(body) == 0 {
+		return lexpr{}, mmNone, unsupportedf("%s: call of %s: empty body", g.at(x), name)
+	}
+	ret, ok := body[len(body)-1].(*ast.ReturnStmt)
+	if !ok || len(ret.Results) != 1 {
+		return lexpr{}, mmNone, unsupportedf("%s: call of %s: the body does not end in `return <expr>`", g.at(x), name)
+	}
+	// arguments, in the caller's scope
+	var parts []string
+	henv := &mmEnv{vars: map[string]mmTy{}, rename: map[string]string{}, depth: env.depth + 1}
+	for i, a := range x.Args {
+		ae, at, err := g.expr(a, env)
+		if err != nil {
+			return lexpr{}, mmNone, err
+		}
+		if at != ps[i].ty && at != mmUntyped {
+			return lexpr{}, mmNone, unsupportedf("%s: argument of type %s for the %s parameter `%s` of %s", g.at(a), at, ps[i].ty, ps[i].name, name)
+		}
+		henv.vars[ps[i].name] = ps[i].ty
+		henv.rename[ps[i].name] = g.freshName(ps[i].name)
+		parts = append(parts, fmt.Sprintf("let %s : UInt64 := %s", henv.lean(ps[i].name), ae.s))
+	}
+	saved := g.shadow
+	g.shadow = declaredIn(fd)
+	defer func() { g.shadow = saved }()
+	lets, err := g.straight(body[:len(body)-1], henv, "")
+	if err != nil {
+		return lexpr{}, mmNone, err
+	}
+	for _, l := range lets {
+		parts = append(parts, fmt.Sprintf("let %s : UInt64 := %s", l.name, l.rhs))
+	}
+	re, rt, err := g.expr(ret.Results[0], henv)
+	if err != nil {
+		return lexpr{}, mmNone, err
+	}
+	if rt != rs[0].ty && rt != mmUntyped {
+		return lexpr{}, mmNone, unsupportedf("%s: %s returns a value of type %s", g.at(ret), name, rt)
+	}
+	note := fmt.Sprintf("%s: func %s (lines %d..%d)", g.at(fd), name, g.line(fd), g.fset.Position(fd.Body.Rbrace).Line)
+	seen := false
+	for _, n := range g.inlined {
+		if n == note {
+			seen = true
+		}
+	}
+	if !seen {
+		g.inlined = append(g.inlined, note)
+	}
+	parts = append(parts, re.s)
+	return lexpr{"(" + strings.Join(parts, "; ") + ")", true}, rs[0].ty, nil
 }
 
 var mmAssignOp = map[token.Token]token.Token{token.MUL_ASSIGN: token.MUL, token.ADD_ASSIGN: token.ADD, token.SUB_ASSIGN: token.SUB,
 	token.XOR_ASSIGN: token.XOR, token.OR_ASSIGN: token.OR, token.AND_ASSIGN: token.AND}
 
-// straight translates `v = e` / `v op= e` statements into `let` lines; with cond != "" every line is
-// `let v := if cond then <new value> else v`
-func (g *mmGen) straight(stmts []ast.Stmt, env *mmEnv, cond string, note string, b *strings.Builder) error {
+// mmLet: one `let name : UInt64 := rhs` of a translated statement list
+type mmLet struct {
+	name string // Lean name
+	rhs  string
+	cmt  string
+}
+
+// straight translates assignments / definitions into `let` bindings; with cond != "" every assignment
+// to a variable is `let v := if cond then <new value> else v` (definitions are refused there)
+func (g *mmGen) straight(stmts []ast.Stmt, env *mmEnv, cond string) ([]mmLet, error) {
+	var out []mmLet
+	guard := func(v, e string) string {
+		if cond == "" {
+			return e
+		}
+		return fmt.Sprintf("if %s then %s else %s", cond, e, v)
+	}
 	for _, s := range stmts {
+		if ds, ok := s.(*ast.DeclStmt); ok {
+			// var a, b uint64
+			gd, ok := ds.Decl.(*ast.GenDecl)
+			if !ok || gd.Tok != token.VAR || cond != "" {
+				return nil, unsupportedf("%s: declaration `%s`", g.at(s), g.src(s))
+			}
+			for _, sp := range gd.Specs {
+				vs, ok := sp.(*ast.ValueSpec)
+				if !ok || len(vs.Values) != 0 || !mmTyOf(vs.Type).word() {
+					return nil, unsupportedf("%s: expected `var a, b uint64`, found `%s`", g.at(s), g.src(s))
+				}
+				for _, n := range vs.Names {
+					if _, dup := env.vars[n.Name]; dup || n.Name == "_" {
+						return nil, unsupportedf("%s: `%s` is declared twice (shadowing is not supported)", g.at(s), n.Name)
+					}
+					env.vars[n.Name] = mmTyOf(vs.Type)
+					out = append(out, mmLet{env.lean(n.Name), "0", g.cmt(s)})
+				}
+			}
+			continue
+		}
 		as, ok := s.(*ast.AssignStmt)
 		if !ok {
-			return unsupportedf("%s: statement `%s` is not an assignment", g.at(s), g.src(s))
+			return nil, unsupportedf("%s: statement `%s` is neither an assignment nor a declaration", g.at(s), g.src(s))
 		}
-		if len(as.Lhs) != 1 || len(as.Rhs) != 1 {
-			return unsupportedf("%s: multiple assignment", g.at(s))
+		if len(as.Lhs) != len(as.Rhs) {
+			return nil, unsupportedf("%s: assignment from a multi-valued expression", g.at(s))
 		}
-		id, ok := as.Lhs[0].(*ast.Ident)
-		if !ok {
-			return unsupportedf("%s: assignment to %s", g.at(s), types.ExprString(as.Lhs[0]))
+		var ids []*ast.Ident
+		for _, l := range as.Lhs {
+			id, ok := l.(*ast.Ident)
+			if !ok || id.Name == "_" {
+				return nil, unsupportedf("%s: assignment to %s", g.at(s), types.ExprString(l))
+			}
+			ids = append(ids, id)
 		}
-		vt, ok := env.vars[id.Name]
-		if !ok || (vt != mmU64 && vt != mmUint) {
-			return unsupportedf("%s: assignment to `%s`, which is not a uint64/uint variable of the piece", g.at(s), id.Name)
-		}
-		var rhs ast.Expr
 		switch {
-		case as.Tok == token.ASSIGN:
-			rhs = as.Rhs[0]
-		case mmAssignOp[as.Tok] != token.ILLEGAL:
-			rhs = &ast.BinaryExpr{X: &ast.Ident{Name: id.Name, NamePos: id.NamePos}, OpPos: as.TokPos, Op: mmAssignOp[as.Tok],
-				Y: &ast.ParenExpr{Lparen: as.Rhs[0].Pos(), X: as.Rhs[0]}}
+		case as.Tok == token.DEFINE:
+			if cond != "" {
+				return nil, unsupportedf("%s: `:=` inside a case of the switch", g.at(s))
+			}
+			// all right-hand sides first (in the old scope), then the new names
+			var rhs []lexpr
+			var tys []mmTy
+			for _, r := range as.Rhs {
+				e, et, err := g.expr(r, env)
+				if err != nil {
+					return nil, err
+				}
+				if !et.word() {
+					return nil, unsupportedf("%s: `:=` of a value of type %s", g.at(s), et)
+				}
+				rhs = append(rhs, e)
+				tys = append(tys, et)
+			}
+			for i, id := range ids {
+				if _, dup := env.vars[id.Name]; dup {
+					return nil, unsupportedf("%s: `%s` is redeclared (shadowing is not supported)", g.at(s), id.Name)
+				}
+				for j := 0; j < i; j++ {
+					if ids[j].Name == id.Name {
+						return nil, unsupportedf("%s: `%s` twice on the left", g.at(s), id.Name)
+					}
+				}
+			}
+			if len(ids) == 1 {
+				env.vars[ids[0].Name] = tys[0]
+				out = append(out, mmLet{env.lean(ids[0].Name), rhs[0].s, g.cmt(s)})
+				continue
+			}
+			var tmps []string
+			for i := range ids {
+				t := g.freshName("tmp")
+				tmps = append(tmps, t)
+				out = append(out, mmLet{t, rhs[i].s, g.cmt(s) + fmt.Sprintf(" (right-hand side #%d, evaluated first)", i+1)})
+			}
+			for i, id := range ids {
+				env.vars[id.Name] = tys[i]
+				out = append(out, mmLet{env.lean(id.Name), tmps[i], g.cmt(s)})
+			}
+		case as.Tok == token.ASSIGN && len(ids) > 1:
+			// tuple assignment: simultaneous
+			var tmps []string
+			for i, id := range ids {
+				vt, ok := env.vars[id.Name]
+				if !ok || !vt.word() {
+					return nil, unsupportedf("%s: assignment to `%s`, which is not a uint64/uint variable of the piece", g.at(s), id.Name)
+				}
+				for j := 0; j < i; j++ {
+					if ids[j].Name == id.Name {
+						return nil, unsupportedf("%s: `%s` twice on the left", g.at(s), id.Name)
+					}
+				}
+				e, et, err := g.expr(as.Rhs[i], env)
+				if err != nil {
+					return nil, err
+				}
+				if et != vt && et != mmUntyped {
+					return nil, unsupportedf("%s: value of type %s assigned to `%s` of type %s", g.at(s), et, id.Name, vt)
+				}
+				t := g.freshName("tmp")
+				tmps = append(tmps, t)
+				out = append(out, mmLet{t, e.s, g.cmt(s) + fmt.Sprintf(" (right-hand side #%d, evaluated first)", i+1)})
+			}
+			for i, id := range ids {
+				v := env.lean(id.Name)
+				out = append(out, mmLet{v, guard(v, tmps[i]), g.cmt(s)})
+			}
 		default:
-			return unsupportedf("%s: assignment operator %s", g.at(s), as.Tok)
-		}
-		e, et, err := g.expr(rhs, env)
-		if err != nil {
-			return err
-		}
-		if et != vt && et != mmUntyped {
-			return unsupportedf("%s: value of type %s assigned to `%s` of type %s", g.at(s), et, id.Name, vt)
-		}
-		v := leanIdent(id.Name)
-		if cond == "" {
-			fmt.Fprintf(b, "  let %s : UInt64 := %s  %s%s\n", v, e.s, g.cmt(s), note)
-		} else {
-			fmt.Fprintf(b, "  let %s : UInt64 := if %s then %s else %s  %s%s\n", v, cond, e.s, v, g.cmt(s), note)
+			if len(ids) != 1 {
+				return nil, unsupportedf("%s: multiple assignment with %s", g.at(s), as.Tok)
+			}
+			id := ids[0]
+			vt, ok := env.vars[id.Name]
+			if !ok || !vt.word() {
+				return nil, unsupportedf("%s: assignment to `%s`, which is not a uint64/uint variable of the piece", g.at(s), id.Name)
+			}
+			var rhs ast.Expr
+			switch {
+			case as.Tok == token.ASSIGN:
+				rhs = as.Rhs[0]
+			case mmAssignOp[as.Tok] != token.ILLEGAL:
+				rhs = &ast.BinaryExpr{X: &ast.Ident{Name: id.Name, NamePos: id.NamePos}, OpPos: as.TokPos, Op: mmAssignOp[as.Tok],
+					Y: &ast.ParenExpr{Lparen: as.Rhs[0].Pos(), X: as.Rhs[0]}}
+			default:
+				return nil, unsupportedf("%s: assignment operator %s", g.at(s), as.Tok)
+			}
+			e, et, err := g.expr(rhs, env)
+			if err != nil {
+				return nil, err
+			}
+			if et != vt && et != mmUntyped {
+				return nil, unsupportedf("%s: value of type %s assigned to `%s` of type %s", g.at(s), et, id.Name, vt)
+			}
+			v := env.lean(id.Name)
+			out = append(out, mmLet{v, guard(v, e.s), g.cmt(s)})
 		}
 	}
-	return nil
+	return out, nil
+}
+
+func writeLets(b *strings.Builder, lets []mmLet, note string) {
+	for _, l := range lets {
+		fmt.Fprintf(b, "  let %s : UInt64 := %s  %s%s\n", l.name, l.rhs, l.cmt, note)
+	}
+}
+
+func (g *mmGen) inlinedNote() string {
+	if len(g.inlined) == 0 {
+		return ""
+	}
+	return "\n    helpers inlined: " + strings.Join(g.inlined, "; ")
 }
 
 // ---------------------------------------------------------------------------------------------
@@ -470,7 +865,7 @@ func (g *mmGen) fieldList(fl *ast.FieldList) []mmParam {
 func (g *mmGen) stateLoad(s ast.Stmt, tok token.Token, recv string, fields []string) ([]string, error) {
 	as, ok := s.(*ast.AssignStmt)
 	if !ok || as.Tok != tok || len(as.Lhs) != len(fields) || len(as.Rhs) != len(fields) {
-		return nil, unsupportedf("%s: expected `.. %s %s.%s, ..`, found `%s`", g.at(s), tok, recv, strings.Join(fields, ", "+recv+"."), g.src(s))
+		return nil, unsupportedf("%s: expected `.. %s %s.%s`, found `%s`", g.at(s), tok, recv, strings.Join(fields, ", "+recv+"."), g.src(s))
 	}
 	var names []string
 	for i, f := range fields {
@@ -485,13 +880,14 @@ func (g *mmGen) stateLoad(s ast.Stmt, tok token.Token, recv string, fields []str
 
 // stateStore: `d.f1, d.f2 = a, b`
 func (g *mmGen) stateStore(s ast.Stmt, recv string, fields, names []string) error {
+	want := fmt.Sprintf("%s.%s = %s", recv, strings.Join(fields, ", "+recv+"."), strings.Join(names, ", "))
 	as, ok := s.(*ast.AssignStmt)
 	if !ok || as.Tok != token.ASSIGN || len(as.Lhs) != len(fields) || len(as.Rhs) != len(fields) {
-		return unsupportedf("%s: expected `%s.%s = %s`, found `%s`", g.at(s), recv, strings.Join(fields, ", "+recv+"."), strings.Join(names, ", "), g.src(s))
+		return unsupportedf("%s: expected `%s`, found `%s`", g.at(s), want, g.src(s))
 	}
 	for i, f := range fields {
 		if !isSel(as.Lhs[i], recv, f) || !isIdent(as.Rhs[i], names[i]) {
-			return unsupportedf("%s: expected `%s.%s = %s`, found `%s`", g.at(s), recv, strings.Join(fields, ", "+recv+"."), strings.Join(names, ", "), g.src(s))
+			return unsupportedf("%s: expected `%s`, found `%s`", g.at(s), want, g.src(s))
 		}
 	}
 	return nil
@@ -511,19 +907,20 @@ func distinct(names ...string) bool {
 // bmix: blockLoad, bmixBlock, loop header
 func (g *mmGen) bmix() []mmPiece {
 	fail := func(err error) []mmPiece {
-		return []mmPiece{{"blockLoad", "", err.Error()}, {"bmixBlock", "", err.Error()}, {"bmixLoop", "", err.Error()}}
+		return []mmPiece{{"blockLoad", "", err.Error()}, {"bmixLoop", "", err.Error()}, {"bmixBlock", "", err.Error()}}
 	}
 	fd := g.funcs["digest128.bmix"]
 	fields := g.fields["digest128"]
 	if fd == nil || fd.Body == nil || len(fields) != 2 {
 		return fail(unsupportedf("murmur.go: method (*digest128).bmix / struct digest128 with two uint64 fields not found"))
 	}
+	g.enter(fd)
 	recv, err := g.recvOf(fd, "digest128")
 	if err != nil {
 		return fail(err)
 	}
 	ps := g.fieldList(fd.Type.Params)
-	if len(ps) != 2 || ps[0].ty != mmBytes || !isIdent(fd.Type.Params.List[len(fd.Type.Params.List)-1].Type, "int") || fd.Type.Results != nil {
+	if len(ps) != 2 || ps[0].ty != mmBytes || ps[1].ty != mmInt || fd.Type.Results != nil {
 		return fail(unsupportedf("%s: expected bmix(p []byte, nblocks int)", g.at(fd)))
 	}
 	p, nblocks := ps[0].name, ps[1].name
@@ -548,7 +945,7 @@ func (g *mmGen) bmix() []mmPiece {
 		return fail(unsupportedf("%s: loop initialisation", g.at(loop)))
 	}
 	iv, ok := ini.Lhs[0].(*ast.Ident)
-	from, ok2 := mmSmallLit(ini.Rhs[0], 1<<31)
+	from, ok2 := g.smallConst(ini.Rhs[0], 1<<31)
 	if !ok || !ok2 {
 		return fail(unsupportedf("%s: loop initialisation", g.at(loop)))
 	}
@@ -582,7 +979,7 @@ func (g *mmGen) bmix() []mmPiece {
 		if !ok || !ok2 || !isIdent(ix.X, tname) {
 			return fail(unsupportedf("%s: expected `k1, k2 := %s[0], %s[1]`, found `%s`", g.at(lb[1]), tname, tname, g.src(lb[1])))
 		}
-		w, ok := mmSmallLit(ix.Index, 2)
+		w, ok := g.smallConst(ix.Index, 2)
 		if !ok {
 			return fail(unsupportedf("%s: word index %s of the [2]uint64 view", g.at(lb[1]), types.ExprString(ix.Index)))
 		}
@@ -607,28 +1004,30 @@ func (g *mmGen) bmix() []mmPiece {
 
 	pieces := []mmPiece{{"blockLoad", ld.String(), ""}, {"bmixLoop", lp.String(), ""}}
 
-	env := &mmEnv{vars: map[string]mmTy{st[0]: mmU64, st[1]: mmU64, kn[0]: mmU64, kn[1]: mmU64}}
-	var bb strings.Builder
 	if len(lb) < 3 {
 		return append(pieces, mmPiece{"bmixBlock", "", g.at(loop) + ": nothing after the load in the loop body"})
 	}
-	fmt.Fprintf(&bb, "/-- murmur.go, (*digest128).bmix: the loop body after the load (lines %d..%d), state (%s, %s) -/\n",
-		g.line(lb[2]), g.fset.Position(loop.Body.Rbrace).Line-1, st[0], st[1])
-	fmt.Fprintf(&bb, "def bmixBlock (%s %s %s %s : UInt64) : UInt64 × UInt64 :=\n", leanIdent(st[0]), leanIdent(st[1]), leanIdent(kn[0]), leanIdent(kn[1]))
-	if err := g.straight(lb[2:], env, "", "", &bb); err != nil {
+	env := &mmEnv{vars: map[string]mmTy{st[0]: mmU64, st[1]: mmU64, kn[0]: mmU64, kn[1]: mmU64}}
+	lets, err := g.straight(lb[2:], env, "")
+	if err != nil {
 		return append(pieces, mmPiece{"bmixBlock", "", err.Error()})
 	}
+	var bb strings.Builder
+	fmt.Fprintf(&bb, "/-- murmur.go, (*digest128).bmix: the loop body after the load (lines %d..%d), state (%s, %s)%s -/\n",
+		g.line(lb[2]), g.fset.Position(loop.Body.Rbrace).Line-1, st[0], st[1], g.inlinedNote())
+	fmt.Fprintf(&bb, "def bmixBlock (%s %s %s %s : UInt64) : UInt64 × UInt64 :=\n", leanIdent(st[0]), leanIdent(st[1]), leanIdent(kn[0]), leanIdent(kn[1]))
+	writeLets(&bb, lets, "")
 	fmt.Fprintf(&bb, "  (%s, %s)\n", leanIdent(st[0]), leanIdent(st[1]))
 	return append(pieces, mmPiece{"bmixBlock", bb.String(), ""})
 }
 
-// unsafeLoad recognises exactly `t := (*[2]uint64)(unsafe.Pointer(&p[i*S]))`; returns S and t
+// unsafeLoad recognises exactly `t := (*[2]uint64)(unsafe.Pointer(&p[i*S]))` (S a constant); returns S and t
 func (g *mmGen) unsafeLoad(s ast.Stmt, p, i string) (int, string, error) {
 	bad := func() (int, string, error) {
-		return 0, "", unsupportedf("%s: expected `t := (*[2]uint64)(unsafe.Pointer(&%s[%s*<literal>]))`, found `%s`", g.at(s), p, i, g.src(s))
+		return 0, "", unsupportedf("%s: expected `t := (*[2]uint64)(unsafe.Pointer(&%s[%s*<constant>]))`, found `%s`", g.at(s), p, i, g.src(s))
 	}
 	as, ok := s.(*ast.AssignStmt)
-	if !ok || as.Tok != token.DEFINE || len(as.Lhs) != 1 || len(as.Rhs) != 1 || g.unsafeName == "" {
+	if !ok || as.Tok != token.DEFINE || len(as.Lhs) != 1 || len(as.Rhs) != 1 || g.unsafeName == "" || g.shadow[g.unsafeName] {
 		return bad()
 	}
 	t, ok := as.Lhs[0].(*ast.Ident)
@@ -648,10 +1047,10 @@ func (g *mmGen) unsafeLoad(s ast.Stmt, p, i string) (int, string, error) {
 		return bad()
 	}
 	arr, ok := star.X.(*ast.ArrayType)
-	if !ok || arr.Len == nil || !isIdent(arr.Elt, "uint64") {
+	if !ok || arr.Len == nil || !isIdent(arr.Elt, "uint64") || g.shadow["uint64"] {
 		return bad()
 	}
-	if n, ok := mmSmallLit(arr.Len, 3); !ok || n != 2 {
+	if n, ok := g.smallConst(arr.Len, 3); !ok || n != 2 {
 		return bad()
 	}
 	up, ok := conv.Args[0].(*ast.CallExpr)
@@ -667,50 +1066,23 @@ func (g *mmGen) unsafeLoad(s ast.Stmt, p, i string) (int, string, error) {
 		return bad()
 	}
 	mul, ok := ix.Index.(*ast.BinaryExpr)
-	if !ok || mul.Op != token.MUL || !isIdent(mul.X, i) {
+	if !ok || mul.Op != token.MUL {
 		return bad()
 	}
-	stride, ok := mmSmallLit(mul.Y, 1<<20)
+	var k ast.Expr
+	switch {
+	case isIdent(mul.X, i):
+		k = mul.Y
+	case isIdent(mul.Y, i):
+		k = mul.X
+	default:
+		return bad()
+	}
+	stride, ok := g.smallConst(k, 1<<20)
 	if !ok {
 		return bad()
 	}
 	return stride, t.Name, nil
-}
-
-func (g *mmGen) fmix() mmPiece {
-	fd := g.funcs["fmix64"]
-	if fd == nil || fd.Body == nil {
-		return mmPiece{"fmix64", "", "murmur.go: function fmix64 not found"}
-	}
-	ps, rs := g.fieldList(fd.Type.Params), g.fieldList(fd.Type.Results)
-	if len(ps) != 1 || ps[0].ty != mmU64 || ps[0].name == "" || ps[0].name == "_" || len(rs) != 1 || rs[0].ty != mmU64 || rs[0].name != "" {
-		return mmPiece{"fmix64", "", g.at(fd) + ": expected func fmix64(k uint64) uint64"}
-	}
-	body := fd.Body.List
-	if len(body) == 0 {
-		return mmPiece{"fmix64", "", g.at(fd) + ": empty body"}
-	}
-	ret, ok := body[len(body)-1].(*ast.ReturnStmt)
-	if !ok || len(ret.Results) != 1 {
-		return mmPiece{"fmix64", "", g.at(body[len(body)-1]) + ": expected `return <expr>`"}
-	}
-	env := &mmEnv{vars: map[string]mmTy{ps[0].name: mmU64}}
-	var b strings.Builder
-	fmt.Fprintf(&b, "/-- murmur.go, fmix64 (lines %d..%d) -/\n", g.line(fd), g.fset.Position(fd.Body.Rbrace).Line)
-	fmt.Fprintf(&b, "def fmix64 (%s : UInt64) : UInt64 :=\n", leanIdent(ps[0].name))
-	if err := g.straight(body[:len(body)-1], env, "", "", &b); err != nil {
-		return mmPiece{"fmix64", "", err.Error()}
-	}
-	e, et, err := g.expr(ret.Results[0], env)
-	if err != nil {
-		return mmPiece{"fmix64", "", err.Error()}
-	}
-	if et != mmU64 {
-		return mmPiece{"fmix64", "", fmt.Sprintf("%s: result of type %s", g.at(ret), et)}
-	}
-	fmt.Fprintf(&b, "  %s  %s\n", e.s, g.cmt(ret))
-	g.translated["fmix64"] = true
-	return mmPiece{"fmix64", b.String(), ""}
 }
 
 // Sum128: tailMix, finalize, digestSum128
@@ -723,6 +1095,7 @@ func (g *mmGen) sumTail() []mmPiece {
 	if fd == nil || fd.Body == nil || len(fields) != 2 {
 		return fail(unsupportedf("murmur.go: method (*digest128).Sum128 / struct digest128 with two uint64 fields not found"))
 	}
+	g.enter(fd)
 	recv, err := g.recvOf(fd, "digest128")
 	if err != nil {
 		return fail(err)
@@ -730,11 +1103,11 @@ func (g *mmGen) sumTail() []mmPiece {
 	ps, rs := g.fieldList(fd.Type.Params), g.fieldList(fd.Type.Results)
 	if len(ps) != 2 || ps[0].ty != mmBytes || ps[1].ty != mmUint || len(rs) != 2 || rs[0].ty != mmU64 || rs[1].ty != mmU64 ||
 		!distinct(recv, ps[0].name, ps[1].name, rs[0].name, rs[1].name) {
-		return fail(unsupportedf("%s: expected Sum128(tail []byte, dlen uint) (h1, h2 uint64)", g.at(fd)))
+		return fail(unsupportedf("%s: expected Sum128(tail []byte, dlen uint) (h1, h2 uint64) with named results", g.at(fd)))
 	}
 	tail, dlen, r1, r2 := ps[0].name, ps[1].name, rs[0].name, rs[1].name
 	body := fd.Body.List
-	if len(body) < 4 {
+	if len(body) < 3 {
 		return fail(unsupportedf("%s: body too short", g.at(fd)))
 	}
 	st, err := g.stateLoad(body[0], token.ASSIGN, recv, fields)
@@ -744,57 +1117,56 @@ func (g *mmGen) sumTail() []mmPiece {
 	if st[0] != r1 || st[1] != r2 {
 		return fail(unsupportedf("%s: the state is not loaded into the named results (%s, %s)", g.at(body[0]), r1, r2))
 	}
-	// var k1, k2 uint64
-	ds, ok := body[1].(*ast.DeclStmt)
-	var kn []string
-	if ok {
-		if gd, ok := ds.Decl.(*ast.GenDecl); ok && gd.Tok == token.VAR && len(gd.Specs) == 1 {
-			if vs, ok := gd.Specs[0].(*ast.ValueSpec); ok && len(vs.Values) == 0 && mmTyOf(vs.Type) == mmU64 {
-				for _, n := range vs.Names {
-					kn = append(kn, n.Name)
-				}
-			}
-		}
-	}
-	if len(kn) == 0 || !distinct(append([]string{recv, tail, dlen, r1, r2}, kn...)...) {
-		return fail(unsupportedf("%s: expected `var k1, k2 uint64`, found `%s`", g.at(body[1]), g.src(body[1])))
-	}
-	sw, ok := body[2].(*ast.SwitchStmt)
-	if !ok || sw.Init != nil {
-		return fail(unsupportedf("%s: expected `switch len(%s) & <literal>`", g.at(body[2]), tail))
-	}
-	tag, ok := sw.Tag.(*ast.BinaryExpr)
-	if !ok || tag.Op != token.AND {
-		return fail(unsupportedf("%s: expected `switch len(%s) & <literal>`", g.at(sw), tail))
-	}
-	lc, ok := tag.X.(*ast.CallExpr)
-	mask, ok2 := mmSmallLit(tag.Y, 1<<20)
-	if !ok || !ok2 || !isIdent(lc.Fun, "len") || len(lc.Args) != 1 || !isIdent(lc.Args[0], tail) {
-		return fail(unsupportedf("%s: expected `switch len(%s) & <literal>`", g.at(sw), tail))
-	}
 	ret, ok := body[len(body)-1].(*ast.ReturnStmt)
 	if !ok || !(len(ret.Results) == 0 || (len(ret.Results) == 2 && isIdent(ret.Results[0], r1) && isIdent(ret.Results[1], r2))) {
 		return fail(unsupportedf("%s: expected `return %s, %s`", g.at(body[len(body)-1]), r1, r2))
+	}
+	// the switch: the only statement of the body that is neither an assignment nor a declaration
+	si := -1
+	for i := 1; i < len(body)-1; i++ {
+		switch body[i].(type) {
+		case *ast.AssignStmt, *ast.DeclStmt:
+		case *ast.SwitchStmt:
+			if si >= 0 {
+				return fail(unsupportedf("%s: a second switch statement", g.at(body[i])))
+			}
+			si = i
+		default:
+			return fail(unsupportedf("%s: expected assignments, declarations and one `switch len(%s) & <constant>` over the tail bytes; found `%s` (loops / ifs over the tail are not translated)", g.at(body[i]), tail, g.src(body[i])))
+		}
+	}
+	if si < 0 {
+		return fail(unsupportedf("%s: no `switch len(%s) & <constant>` over the tail bytes found", g.at(fd), tail))
+	}
+	sw := body[si].(*ast.SwitchStmt)
+	wantSw := fmt.Sprintf("switch len(%s) & <constant>", tail)
+	if sw.Init != nil {
+		return fail(unsupportedf("%s: expected `%s`", g.at(sw), wantSw))
+	}
+	tag, ok := sw.Tag.(*ast.BinaryExpr)
+	if !ok || tag.Op != token.AND {
+		return fail(unsupportedf("%s: expected `%s`", g.at(sw), wantSw))
+	}
+	lc, ok := tag.X.(*ast.CallExpr)
+	mask, ok2 := g.smallConst(tag.Y, 1<<20)
+	if !ok || !ok2 || !isIdent(lc.Fun, "len") || g.shadow["len"] || len(lc.Args) != 1 || !isIdent(lc.Args[0], tail) {
+		return fail(unsupportedf("%s: expected `%s`", g.at(sw), wantSw))
 	}
 
 	var pieces []mmPiece
 	// --- tailMix
 	tm := func() mmPiece {
-		var b strings.Builder
-		fmt.Fprintf(&b, "/-- murmur.go, (*digest128).Sum128: the tail switch (lines %d..%d).  The case values are %d, %d, ... in\n", g.line(body[1]), g.fset.Position(sw.Body.Rbrace).Line, mask, mask-1)
-		fmt.Fprintf(&b, "    source order, every case but the last ends in `fallthrough`: the statements of `case c` run iff\n    `len(%s) & %d ≥ c`.  `%s` has length < 2^63 (a Go slice), so `&` on the `int` is `&&&` on `Nat`. -/\n", tail, mask, tail)
-		fmt.Fprintf(&b, "def tailMix (%s : List UInt8) (%s %s : UInt64) : UInt64 × UInt64 :=\n", leanIdent(tail), leanIdent(r1), leanIdent(r2))
-		for _, k := range kn {
-			fmt.Fprintf(&b, "  let %s : UInt64 := 0  %s\n", leanIdent(k), g.cmt(body[1]))
-		}
-		fmt.Fprintf(&b, "  let sel : Nat := %s.length &&& %d  %s\n", leanIdent(tail), mask, g.cmt(sw))
 		vars := map[string]mmTy{tail: mmBytes, dlen: mmUint, r1: mmU64, r2: mmU64}
-		for _, k := range kn {
-			vars[k] = mmU64
+		env := &mmEnv{vars: vars}
+		pre, err := g.straight(body[1:si], env, "")
+		if err != nil {
+			return mmPiece{"tailMix", "", err.Error()}
 		}
-		if _, clash := vars["sel"]; clash {
-			return mmPiece{"tailMix", "", "a variable of Sum128 is called `sel`"}
+		sel := "sel"
+		if g.idents[sel] {
+			sel = g.freshName("sel")
 		}
+		var cases strings.Builder
 		n := len(sw.Body.List)
 		if n == 0 {
 			return mmPiece{"tailMix", "", g.at(sw) + ": switch without cases"}
@@ -806,12 +1178,9 @@ func (g *mmGen) sumTail() []mmPiece {
 		}
 		for i, c := range sw.Body.List {
 			cc := c.(*ast.CaseClause)
-			if len(cc.List) != 1 {
-				return mmPiece{"tailMix", "", g.at(cc) + ": a default clause or a case with several values"}
-			}
-			v, ok := mmSmallLit(cc.List[0], 1<<20)
+			v, ok := g.smallConst(cc.List[0], 1<<20)
 			if !ok || v != mask-i || v < 1 {
-				return mmPiece{"tailMix", "", fmt.Sprintf("%s: case value %s, expected the literal %d (descending from the mask)", g.at(cc), types.ExprString(cc.List[0]), mask-i)}
+				return mmPiece{"tailMix", "", fmt.Sprintf("%s: case value %s, expected the constant %d (descending from the mask)", g.at(cc), types.ExprString(cc.List[0]), mask-i)}
 			}
 			stmts := cc.Body
 			falls := false
@@ -827,11 +1196,20 @@ func (g *mmGen) sumTail() []mmPiece {
 			if i == n-1 && falls {
 				return mmPiece{"tailMix", "", fmt.Sprintf("%s: the last case ends in `fallthrough`", g.at(cc))}
 			}
-			env := &mmEnv{vars: vars, caseBound: v}
-			if err := g.straight(stmts, env, fmt.Sprintf("sel ≥ %d", v), fmt.Sprintf(" (case %d)", v), &b); err != nil {
+			env.caseBound = v
+			lets, err := g.straight(stmts, env, fmt.Sprintf("%s ≥ %d", sel, v))
+			if err != nil {
 				return mmPiece{"tailMix", "", err.Error()}
 			}
+			writeLets(&cases, lets, fmt.Sprintf(" (case %d)", v))
 		}
+		var b strings.Builder
+		fmt.Fprintf(&b, "/-- murmur.go, (*digest128).Sum128: the tail switch (lines %d..%d).  The case values are %d, %d, ... in\n", g.line(body[1]), g.fset.Position(sw.Body.Rbrace).Line, mask, mask-1)
+		fmt.Fprintf(&b, "    source order, every case but the last ends in `fallthrough`: the statements of `case c` run iff\n    `len(%s) & %d ≥ c`.  `%s` has length < 2^63 (a Go slice), so `&` on the `int` is `&&&` on `Nat`.%s -/\n", tail, mask, tail, g.inlinedNote())
+		fmt.Fprintf(&b, "def tailMix (%s : List UInt8) (%s %s : UInt64) : UInt64 × UInt64 :=\n", leanIdent(tail), leanIdent(r1), leanIdent(r2))
+		writeLets(&b, pre, "")
+		fmt.Fprintf(&b, "  let %s : Nat := %s.length &&& %d  %s\n", sel, leanIdent(tail), mask, g.cmt(sw))
+		b.WriteString(cases.String())
 		fmt.Fprintf(&b, "  (%s, %s)\n", leanIdent(r1), leanIdent(r2))
 		return mmPiece{"tailMix", b.String(), ""}
 	}()
@@ -839,14 +1217,18 @@ func (g *mmGen) sumTail() []mmPiece {
 
 	// --- finalize
 	fin := func() mmPiece {
-		var b strings.Builder
-		fmt.Fprintf(&b, "/-- murmur.go, (*digest128).Sum128: after the switch (lines %d..%d); `%s uint` is passed as its 64-bit value -/\n",
-			g.fset.Position(sw.Body.Rbrace).Line+1, g.line(ret), dlen)
-		fmt.Fprintf(&b, "def finalize (%s %s %s : UInt64) : UInt64 × UInt64 :=\n", leanIdent(r1), leanIdent(r2), leanIdent(dlen))
+		g.fresh = 0
+		g.inlined = nil
 		env := &mmEnv{vars: map[string]mmTy{r1: mmU64, r2: mmU64, dlen: mmUint}}
-		if err := g.straight(body[3:len(body)-1], env, "", "", &b); err != nil {
+		lets, err := g.straight(body[si+1:len(body)-1], env, "")
+		if err != nil {
 			return mmPiece{"finalize", "", err.Error()}
 		}
+		var b strings.Builder
+		fmt.Fprintf(&b, "/-- murmur.go, (*digest128).Sum128: after the switch (lines %d..%d); `%s uint` is passed as its 64-bit value%s -/\n",
+			g.fset.Position(sw.Body.Rbrace).Line+1, g.line(ret), dlen, g.inlinedNote())
+		fmt.Fprintf(&b, "def finalize (%s %s %s : UInt64) : UInt64 × UInt64 :=\n", leanIdent(r1), leanIdent(r2), leanIdent(dlen))
+		writeLets(&b, lets, "")
 		fmt.Fprintf(&b, "  (%s, %s)  %s\n", leanIdent(r1), leanIdent(r2), g.cmt(ret))
 		return mmPiece{"finalize", b.String(), ""}
 	}()
@@ -863,153 +1245,241 @@ func (g *mmGen) sumTail() []mmPiece {
 	return append(pieces, mmPiece{"digestSum128", b.String(), ""})
 }
 
-// sum128: seeds, nblocksOf, tailStart from
+// mmSym: a non-negative int expression of sum128 in terms of dlen = len(data)
+type mmSym struct {
+	kind int // 0 constant, 1 len(data), 2 len(data)/c, 3 (len(data)/c)*m
+	v    int // constant value
+	c, m int
+}
+
+func (s mmSym) lean() string {
+	switch s.kind {
+	case 0:
+		return strconv.Itoa(s.v)
+	case 1:
+		return "dlen"
+	case 2:
+		return fmt.Sprintf("dlen / %d", s.c)
+	}
+	return fmt.Sprintf("dlen / %d * %d", s.c, s.m)
+}
+
+// sum128: seeds, nblocksOf, tailStart, lengthArg.  The statements may come in any order that compiles:
 //
-//	d := digest128{h1: 0, h2: 0}; dlen := len(data); nblocks := dlen / N; d.bmix(data, nblocks);
-//	tail := data[nblocks*d.Size():]; return d.Sum128(tail, uint(dlen))
+//	d := digest128{h1: 0, h2: 0} | var d digest128;  x := <int expr>;  t := data[<int expr>:];
+//	d.bmix(data, <int expr>) (once);  return d.Sum128(<t or data[..:]>, uint(<int expr>)) (last)
+//
+// int expressions: len(data), int locals, constants, d.Size(), <len>/C, (<len>/C)*M with M <= C
 func (g *mmGen) sumTop() mmPiece {
-	const name = "sum128 (seedH1, seedH2, nblocksOf, tailStart)"
-	bad := func(n ast.Node, want string) mmPiece {
-		return mmPiece{name, "", fmt.Sprintf("%s: expected `%s`, found `%s`", g.at(n), want, g.src(n))}
+	const name = "sum128 (seedH1, seedH2, nblocksOf, tailStart, lengthArg)"
+	bad := func(n ast.Node, why string) mmPiece {
+		return mmPiece{name, "", fmt.Sprintf("%s: %s: `%s`", g.at(n), why, g.src(n))}
 	}
 	fd := g.funcs["sum128"]
 	fields := g.fields["digest128"]
 	if fd == nil || fd.Body == nil || len(fields) != 2 {
 		return mmPiece{name, "", "murmur.go: function sum128 / struct digest128 with two uint64 fields not found"}
 	}
+	g.enter(fd)
 	ps, rs := g.fieldList(fd.Type.Params), g.fieldList(fd.Type.Results)
-	if fd.Recv != nil || len(ps) != 1 || ps[0].ty != mmBytes || len(rs) != 2 || rs[0].ty != mmU64 || rs[1].ty != mmU64 {
-		return mmPiece{name, "", g.at(fd) + ": expected func sum128(data []byte) (h1 uint64, h2 uint64)"}
+	if fd.Recv != nil || len(ps) != 1 || ps[0].ty != mmBytes || ps[0].name == "" || len(rs) != 2 || rs[0].ty != mmU64 || rs[1].ty != mmU64 {
+		return mmPiece{name, "", g.at(fd) + ": expected func sum128(data []byte) (uint64, uint64)"}
 	}
 	data := ps[0].name
+	for _, b := range []string{"len", "uint", "digest128"} {
+		if g.shadow[b] {
+			return mmPiece{name, "", g.at(fd) + ": `" + b + "` is redeclared inside sum128"}
+		}
+	}
 	body := fd.Body.List
-	if len(body) != 6 {
-		return mmPiece{name, "", fmt.Sprintf("%s: expected six statements, found %d", g.at(fd), len(body))}
-	}
-	// d := digest128{h1: 0, h2: 0}
-	s0, ok := body[0].(*ast.AssignStmt)
-	if !ok || s0.Tok != token.DEFINE || len(s0.Lhs) != 1 || len(s0.Rhs) != 1 {
-		return bad(body[0], "d := digest128{h1: .., h2: ..}")
-	}
-	d, ok := s0.Lhs[0].(*ast.Ident)
-	cl, ok2 := s0.Rhs[0].(*ast.CompositeLit)
-	if !ok || !ok2 || !isIdent(cl.Type, "digest128") {
-		return bad(body[0], "d := digest128{h1: .., h2: ..}")
-	}
+	ints := map[string]mmSym{}
+	tails := map[string]mmSym{}
+	dname := ""
 	seeds := map[string]string{fields[0]: "0", fields[1]: "0"}
-	for _, el := range cl.Elts {
-		kv, ok := el.(*ast.KeyValueExpr)
-		if !ok {
-			return bad(body[0], "d := digest128{h1: .., h2: ..}")
+	var nb *mmSym
+	sizeNote := ""
+
+	var sym func(e ast.Expr) (mmSym, bool)
+	sym = func(e ast.Expr) (mmSym, bool) {
+		if v, ok := g.smallConst(e, 1<<30); ok {
+			return mmSym{kind: 0, v: v}, true
 		}
-		k, ok := kv.Key.(*ast.Ident)
-		v, ok2 := mmLit(kv.Value)
-		if !ok || !ok2 || v.Sign() < 0 || v.BitLen() > 64 {
-			return bad(body[0], "d := digest128{h1: <literal>, h2: <literal>}")
+		switch x := e.(type) {
+		case *ast.ParenExpr:
+			return sym(x.X)
+		case *ast.Ident:
+			s, ok := ints[x.Name]
+			return s, ok
+		case *ast.CallExpr:
+			if isIdent(x.Fun, "len") && len(x.Args) == 1 && isIdent(x.Args[0], data) {
+				return mmSym{kind: 1}, true
+			}
+			if dname != "" && isSel(x.Fun, dname, "Size") && len(x.Args) == 0 {
+				sf := g.funcs["digest128.Size"]
+				if sf == nil || sf.Body == nil || len(sf.Body.List) != 1 || sf.Type.Params.NumFields() != 0 {
+					return mmSym{}, false
+				}
+				r, ok := sf.Body.List[0].(*ast.ReturnStmt)
+				if !ok || len(r.Results) != 1 {
+					return mmSym{}, false
+				}
+				saved := g.shadow
+				g.shadow = declaredIn(sf)
+				n, ok := g.smallConst(r.Results[0], 1<<30)
+				g.shadow = saved
+				if !ok {
+					return mmSym{}, false
+				}
+				sizeNote = fmt.Sprintf("; %s: %s", g.at(sf), g.src(sf))
+				return mmSym{kind: 0, v: n}, true
+			}
+		case *ast.BinaryExpr:
+			a, ok := sym(x.X)
+			if !ok {
+				return mmSym{}, false
+			}
+			b, ok := sym(x.Y)
+			if !ok {
+				return mmSym{}, false
+			}
+			switch {
+			case x.Op == token.QUO && a.kind == 1 && b.kind == 0 && b.v > 0:
+				return mmSym{kind: 2, c: b.v}, true
+			case x.Op == token.MUL && a.kind == 2 && b.kind == 0 && b.v <= a.c:
+				return mmSym{kind: 3, c: a.c, m: b.v}, true
+			case x.Op == token.MUL && b.kind == 2 && a.kind == 0 && a.v <= b.c:
+				return mmSym{kind: 3, c: b.c, m: a.v}, true
+			}
 		}
-		if _, known := seeds[k.Name]; !known {
-			return bad(body[0], "d := digest128{h1: .., h2: ..}")
+		return mmSym{}, false
+	}
+	tailOf := func(e ast.Expr) (mmSym, bool) {
+		if id, ok := e.(*ast.Ident); ok {
+			s, ok := tails[id.Name]
+			return s, ok
 		}
-		seeds[k.Name] = v.String()
-	}
-	// dlen := len(data)
-	s1, ok := body[1].(*ast.AssignStmt)
-	if !ok || s1.Tok != token.DEFINE || len(s1.Lhs) != 1 || len(s1.Rhs) != 1 {
-		return bad(body[1], "dlen := len("+data+")")
-	}
-	dlen, ok := s1.Lhs[0].(*ast.Ident)
-	lc, ok2 := s1.Rhs[0].(*ast.CallExpr)
-	if !ok || !ok2 || !isIdent(lc.Fun, "len") || len(lc.Args) != 1 || !isIdent(lc.Args[0], data) {
-		return bad(body[1], "dlen := len("+data+")")
-	}
-	// nblocks := dlen / N
-	s2, ok := body[2].(*ast.AssignStmt)
-	if !ok || s2.Tok != token.DEFINE || len(s2.Lhs) != 1 || len(s2.Rhs) != 1 {
-		return bad(body[2], "nblocks := "+dlen.Name+" / <literal>")
-	}
-	nb, ok := s2.Lhs[0].(*ast.Ident)
-	q, ok2 := s2.Rhs[0].(*ast.BinaryExpr)
-	if !ok || !ok2 || q.Op != token.QUO || !isIdent(q.X, dlen.Name) {
-		return bad(body[2], "nblocks := "+dlen.Name+" / <literal>")
-	}
-	div, ok := mmSmallLit(q.Y, 1<<20)
-	if !ok || div == 0 {
-		return bad(body[2], "nblocks := "+dlen.Name+" / <literal>")
-	}
-	if !distinct(data, d.Name, dlen.Name, nb.Name) {
-		return mmPiece{name, "", g.at(fd) + ": the locals of sum128 are not distinct"}
-	}
-	// d.bmix(data, nblocks)
-	s3, ok := body[3].(*ast.ExprStmt)
-	want3 := fmt.Sprintf("%s.bmix(%s, %s)", d.Name, data, nb.Name)
-	if !ok {
-		return bad(body[3], want3)
-	}
-	c3, ok := s3.X.(*ast.CallExpr)
-	if !ok || !isSel(c3.Fun, d.Name, "bmix") || len(c3.Args) != 2 || !isIdent(c3.Args[0], data) || !isIdent(c3.Args[1], nb.Name) {
-		return bad(body[3], want3)
-	}
-	// tail := data[nblocks*d.Size():]
-	want4 := fmt.Sprintf("tail := %s[%s*%s.Size():]", data, nb.Name, d.Name)
-	s4, ok := body[4].(*ast.AssignStmt)
-	if !ok || s4.Tok != token.DEFINE || len(s4.Lhs) != 1 || len(s4.Rhs) != 1 {
-		return bad(body[4], want4)
-	}
-	tail, ok := s4.Lhs[0].(*ast.Ident)
-	sl, ok2 := s4.Rhs[0].(*ast.SliceExpr)
-	if !ok || !ok2 || !isIdent(sl.X, data) || sl.High != nil || sl.Max != nil || sl.Slice3 || sl.Low == nil || !distinct(data, d.Name, dlen.Name, nb.Name, tail.Name) {
-		return bad(body[4], want4)
-	}
-	mul, ok := sl.Low.(*ast.BinaryExpr)
-	if !ok || mul.Op != token.MUL || !isIdent(mul.X, nb.Name) {
-		return bad(body[4], want4)
-	}
-	size, sizeNote := 0, ""
-	if n, ok := mmSmallLit(mul.Y, 1<<20); ok {
-		size = n
-	} else if sc, ok := mul.Y.(*ast.CallExpr); ok && isSel(sc.Fun, d.Name, "Size") && len(sc.Args) == 0 {
-		sf := g.funcs["digest128.Size"]
-		if sf == nil || sf.Body == nil || len(sf.Body.List) != 1 || sf.Type.Params.NumFields() != 0 {
-			return mmPiece{name, "", "murmur.go: method (*digest128).Size with the body `return <literal>` not found"}
+		sl, ok := e.(*ast.SliceExpr)
+		if !ok || !isIdent(sl.X, data) || sl.High != nil || sl.Max != nil || sl.Slice3 || sl.Low == nil {
+			return mmSym{}, false
 		}
-		r, ok := sf.Body.List[0].(*ast.ReturnStmt)
-		if !ok || len(r.Results) != 1 {
-			return bad(sf, "func (d *digest128) Size() int { return <literal> }")
+		return sym(sl.Low)
+	}
+	declared := func(n string) bool {
+		_, a := ints[n]
+		_, b := tails[n]
+		return a || b || n == dname || n == data || n == "_"
+	}
+	var notes []string
+	var start, length *mmSym
+	for i, s := range body {
+		notes = append(notes, fmt.Sprintf("    %s: %s", g.at(s), g.src(s)))
+		last := i == len(body)-1
+		switch v := s.(type) {
+		case *ast.DeclStmt:
+			// var d digest128
+			gd, ok := v.Decl.(*ast.GenDecl)
+			if !ok || gd.Tok != token.VAR || len(gd.Specs) != 1 {
+				return bad(s, "declaration not understood")
+			}
+			vs, ok := gd.Specs[0].(*ast.ValueSpec)
+			if !ok || len(vs.Names) != 1 || len(vs.Values) != 0 || !isIdent(vs.Type, "digest128") || dname != "" || declared(vs.Names[0].Name) {
+				return bad(s, "expected `var d digest128` (once)")
+			}
+			dname = vs.Names[0].Name
+		case *ast.AssignStmt:
+			if v.Tok != token.DEFINE || len(v.Lhs) != 1 || len(v.Rhs) != 1 {
+				return bad(s, "expected `x := <expr>`")
+			}
+			id, ok := v.Lhs[0].(*ast.Ident)
+			if !ok || declared(id.Name) {
+				return bad(s, "redeclaration or assignment to something that is not a new name")
+			}
+			rhs := v.Rhs[0]
+			if u, ok := rhs.(*ast.UnaryExpr); ok && u.Op == token.AND {
+				rhs = u.X
+			}
+			if cl, ok := rhs.(*ast.CompositeLit); ok {
+				if !isIdent(cl.Type, "digest128") || dname != "" {
+					return bad(s, "expected `d := digest128{h1: .., h2: ..}` (once)")
+				}
+				for _, el := range cl.Elts {
+					kv, ok := el.(*ast.KeyValueExpr)
+					if !ok {
+						return bad(s, "positional composite literal")
+					}
+					k, ok := kv.Key.(*ast.Ident)
+					val, ok2 := g.constEval(kv.Value, 0)
+					if !ok || !ok2 || val.Sign() < 0 || val.BitLen() > 64 {
+						return bad(s, "field value is not a constant")
+					}
+					if _, known := seeds[k.Name]; !known {
+						return bad(s, "unknown field")
+					}
+					seeds[k.Name] = leanNumeral(val)
+				}
+				dname = id.Name
+				continue
+			}
+			if ts, ok := tailOf(rhs); ok {
+				if _, isSlice := rhs.(*ast.SliceExpr); isSlice {
+					tails[id.Name] = ts
+					continue
+				}
+			}
+			if is, ok := sym(rhs); ok {
+				ints[id.Name] = is
+				continue
+			}
+			return bad(s, "right-hand side is neither the digest, an int expression over len("+data+") nor "+data+"[<int expr>:]")
+		case *ast.ExprStmt:
+			c, ok := v.X.(*ast.CallExpr)
+			if !ok || dname == "" || !isSel(c.Fun, dname, "bmix") || len(c.Args) != 2 || !isIdent(c.Args[0], data) || nb != nil {
+				return bad(s, "expected one call `d.bmix("+data+", <nblocks>)` after the digest was created")
+			}
+			n, ok := sym(c.Args[1])
+			if !ok {
+				return bad(s, "the block count is not an int expression over len("+data+")")
+			}
+			nb = &n
+		case *ast.ReturnStmt:
+			if !last || len(v.Results) != 1 || nb == nil {
+				return bad(s, "expected `return d.Sum128(<tail>, uint(<len>))` as the last statement, after d.bmix")
+			}
+			c, ok := v.Results[0].(*ast.CallExpr)
+			if !ok || !isSel(c.Fun, dname, "Sum128") || len(c.Args) != 2 {
+				return bad(s, "expected `return d.Sum128(<tail>, uint(<len>))`")
+			}
+			ts, ok := tailOf(c.Args[0])
+			if !ok {
+				return bad(s, "the tail argument is not "+data+"[<int expr>:]")
+			}
+			cv, ok := c.Args[1].(*ast.CallExpr)
+			if !ok || !isIdent(cv.Fun, "uint") || len(cv.Args) != 1 {
+				return bad(s, "the length argument is not uint(<int expr>)")
+			}
+			ls, ok := sym(cv.Args[0])
+			if !ok {
+				return bad(s, "the length argument is not an int expression over len("+data+")")
+			}
+			start, length = &ts, &ls
+		default:
+			return bad(s, "statement not understood")
 		}
-		n, ok := mmSmallLit(r.Results[0], 1<<20)
-		if !ok {
-			return bad(sf, "func (d *digest128) Size() int { return <literal> }")
-		}
-		size = n
-		sizeNote = fmt.Sprintf("; %s: %s", g.at(sf), g.src(sf))
-	} else {
-		return bad(body[4], want4)
 	}
-	// return d.Sum128(tail, uint(dlen))
-	want5 := fmt.Sprintf("return %s.Sum128(%s, uint(%s))", d.Name, tail.Name, dlen.Name)
-	s5, ok := body[5].(*ast.ReturnStmt)
-	if !ok || len(s5.Results) != 1 {
-		return bad(body[5], want5)
-	}
-	c5, ok := s5.Results[0].(*ast.CallExpr)
-	if !ok || !isSel(c5.Fun, d.Name, "Sum128") || len(c5.Args) != 2 || !isIdent(c5.Args[0], tail.Name) {
-		return bad(body[5], want5)
-	}
-	cv, ok := c5.Args[1].(*ast.CallExpr)
-	if !ok || !isIdent(cv.Fun, "uint") || len(cv.Args) != 1 || !isIdent(cv.Args[0], dlen.Name) {
-		return bad(body[5], want5)
+	if start == nil || length == nil || nb == nil {
+		return mmPiece{name, "", g.at(fd) + ": no `return d.Sum128(..)` at the end"}
 	}
 	var b strings.Builder
-	fmt.Fprintf(&b, "/-- murmur.go, sum128 (lines %d..%d).  Checked statement by statement:\n", g.line(fd), g.fset.Position(fd.Body.Rbrace).Line)
-	for _, s := range body {
-		fmt.Fprintf(&b, "    %s: %s\n", g.at(s), g.src(s))
-	}
-	fmt.Fprintf(&b, "    initial state (%s.%s, %s.%s) -/\n", d.Name, fields[0], d.Name, fields[1])
+	fmt.Fprintf(&b, "/-- murmur.go, sum128 (lines %d..%d).  Statements (each one recognised; pure definitions may come in any order):\n", g.line(fd), g.fset.Position(fd.Body.Rbrace).Line)
+	b.WriteString(strings.Join(notes, "\n"))
+	fmt.Fprintf(&b, "\n    initial state (%s.%s, %s.%s) -/\n", dname, fields[0], dname, fields[1])
 	fmt.Fprintf(&b, "def seedH1 : UInt64 := %s\ndef seedH2 : UInt64 := %s\n", seeds[fields[0]], seeds[fields[1]])
-	fmt.Fprintf(&b, "/-- %s: %s  (`%s = len(%s)`, an `int` ≥ 0: `/` is the division of `Nat`) -/\n", g.at(body[2]), g.src(body[2]), dlen.Name, data)
-	fmt.Fprintf(&b, "def nblocksOf (%s : Nat) : Nat := %s / %d\n", leanIdent(dlen.Name), leanIdent(dlen.Name), div)
-	fmt.Fprintf(&b, "/-- %s: %s%s  (first byte of the tail) -/\n", g.at(body[4]), g.src(body[4]), sizeNote)
-	fmt.Fprintf(&b, "def tailStart (%s : Nat) : Nat := %s * %d\n", leanIdent(nb.Name), leanIdent(nb.Name), size)
+	fmt.Fprintf(&b, "/-- the block count passed to `%s.bmix`, as a function of `dlen = len(%s)` (an `int` ≥ 0: `/` is the division of `Nat`) -/\n", dname, data)
+	fmt.Fprintf(&b, "def nblocksOf (dlen : Nat) : Nat := %s\n", nb.lean())
+	fmt.Fprintf(&b, "/-- the index of the first byte of the tail passed to `%s.Sum128`%s -/\n", dname, sizeNote)
+	fmt.Fprintf(&b, "def tailStart (dlen : Nat) : Nat := %s\n", start.lean())
+	fmt.Fprintf(&b, "/-- the length passed to `%s.Sum128` (before the conversion to `uint`) -/\n", dname)
+	fmt.Fprintf(&b, "def lengthArg (dlen : Nat) : Nat := %s\n", length.lean())
 	return mmPiece{name, b.String(), ""}
 }
 
@@ -1060,7 +1530,7 @@ func (g *mmGen) getHashWord(repo string) mmPiece {
 				word = i
 			}
 		}
-		if word < 0 || isIdent(as.Lhs[0], "_") && isIdent(as.Lhs[1], "_") {
+		if word < 0 {
 			return mmPiece{name, "", at(ret) + ": the result is not one of the two words"}
 		}
 		var b strings.Builder
@@ -1080,38 +1550,37 @@ func genMurmur(repo string) (string, error) {
 	b.WriteString("/- GENERATED by extract/murmur.go from murmur.go (and getHash of base_cuckoo_filter.go) of the repository's\n")
 	b.WriteString("   current sources on every run. DO NOT EDIT.\n")
 	b.WriteString("   murmur3 x64_128 as written in murmur.go, piece by piece, over `UInt64` (Go's uint64 / uint arithmetic is\n")
-	b.WriteString("   the wrap-around arithmetic of `UInt64`; shifts and rotations have literal counts < 64).  The pieces are\n")
+	b.WriteString("   the wrap-around arithmetic of `UInt64`; shifts and rotations have constant counts < 64).  The pieces are\n")
 	b.WriteString("   assembled into `sum128` by the hand-written Gostatix/Model/GoMurmur.lean; Gostatix/Props/MurmurTie.lean\n")
 	b.WriteString("   proves that the result is the hand transcription Gostatix/Model/Murmur.lean for all inputs.\n")
+	b.WriteString("   The definition names are ROLES chosen by the translator, not Go identifiers; package-level integer\n")
+	b.WriteString("   constants are replaced by their values, calls of straight-line helper functions are inlined.\n")
 	b.WriteString("   ASSUMPTIONS: (1) little-endian target (amd64, arm64): the `(*[2]uint64)(unsafe.Pointer(&p[j]))` view reads\n")
 	b.WriteString("   the words `GoBits.loadLE64 p j` and `GoBits.loadLE64 p (j+8)`; unaligned loads are allowed on these targets;\n")
 	b.WriteString("   (2) `uint` and `int` are 64 bits wide, slice lengths are < 2^63, so `len(s) & m`, `len(s) / n` are the\n")
 	b.WriteString("   operations of `Nat` and `uint(len(s))` is `UInt64.ofNat`.\n")
 	b.WriteString("   A piece outside the supported subset has NO definition here, only a comment and an entry in\n")
-	b.WriteString("   `unsupported`; GoMurmur.lean and MurmurTie.lean then fail to build. -/\n")
+	b.WriteString("   `unsupported`; GoMurmur.lean and MurmurTie.lean then fail to build.\n")
+	b.WriteString("   Integer constants of murmur.go (resolved by value wherever they are used):\n")
+	for _, n := range g.constOrder {
+		c := g.consts[n]
+		g.shadow = nil
+		val := "not an integer constant expression"
+		if v, ok := g.constEval(c.expr, 0); ok {
+			val = leanNumeral(v)
+		}
+		srcl := ""
+		if c.line >= 1 && c.line <= len(g.lines) {
+			srcl = strings.TrimSpace(g.lines[c.line-1])
+		}
+		fmt.Fprintf(&b, "     murmur.go:%d: %s   [= %s]\n", c.line, srcl, val)
+	}
+	b.WriteString("-/\n")
 	b.WriteString("import Gostatix.Model.GoBits\n")
 	b.WriteString("namespace Gostatix.Generated.Murmur\n")
 	b.WriteString("open Gostatix\n\n")
 
-	// constants, in source order
-	names := append([]string(nil), g.constOrder...)
-	sort.SliceStable(names, func(i, j int) bool { return g.constLine[names[i]] < g.constLine[names[j]] })
-	for _, n := range names {
-		v := g.consts[n]
-		l := g.constLine[n]
-		srcl := ""
-		if l >= 1 && l <= len(g.lines) {
-			srcl = strings.TrimSpace(g.lines[l-1])
-		}
-		if v.BitLen() > 64 {
-			fmt.Fprintf(&b, "-- murmur.go:%d: %s: constant does not fit 64 bits, no definition\n\n", l, srcl)
-			continue
-		}
-		fmt.Fprintf(&b, "/-- murmur.go:%d: %s -/\ndef %s : UInt64 := 0x%x\n\n", l, srcl, leanIdent(n), v)
-	}
-
 	var pieces []mmPiece
-	pieces = append(pieces, g.fmix())
 	pieces = append(pieces, g.bmix()...)
 	pieces = append(pieces, g.sumTail()...)
 	pieces = append(pieces, g.sumTop())
